@@ -2451,6 +2451,19 @@ impl Handler {
     }
 }
 
+#[cfg(feature = "verif-hooks")]
+impl Handler {
+    /// Synchronous entry point for the deterministic simulator (verification only).
+    /// Runs the same `QueryJob::execute` body as `query_program`, on the calling thread.
+    pub fn verif_execute_sync(
+        &self,
+        knowledge_graph: Option<String>,
+        program: String,
+    ) -> Result<QueryResult, String> {
+        self.make_query_job().execute(knowledge_graph, program)
+    }
+}
+
 impl QueryJob {
     /// Execute an IQL program synchronously on the current thread.
     /// Called from `Handler::query_program` via `tokio::task::spawn_blocking`
